@@ -1627,12 +1627,31 @@ chkpnt(void)
 				rc += chkpnt1(u);
 			}
 		}
+		if (UNLIKELY(rc < 0)) {
+			/* keep all the marks, try again next time */
+			return rc;
+		}
 		goto fin;
 	}
 	/* otherwise just go through the list of checkpoint users */
-	for (size_t i = 0U; i < ichkpnts; i++) {
-		rc += chkpnt1(chkpnts[i].key);
+	with (uid_t failed[countof(chkpnts)]) {
+		size_t nfailed = 0U;
+
+		for (size_t i = 0U; i < ichkpnts; i++) {
+			if (UNLIKELY(chkpnt1(chkpnts[i].key) < 0)) {
+				failed[nfailed++] = chkpnts[i].key;
+				rc--;
+			}
+		}
+		/* all checkpoints cleared hopefully */
+		ichkpnts = 0U;
+		NEDTRIE_INIT(&chkpntr);
+		/* the ones that failed want another go next time */
+		for (size_t i = 0U; i < nfailed; i++) {
+			add_chkpnt(failed[i]);
+		}
 	}
+	return rc;
 fin:
 	/* all checkpoints cleared hopefully */
 	ichkpnts = 0U;
